@@ -15,12 +15,13 @@ type Profile struct {
 	Name                                                               string
 	Publish, Pull, Ack, Nack, Delay, Advance, Seek, Snap, Maint, Sweep int
 	SetDelay                                                           int // change a subscription's injected delivery delay
+	Update                                                             int // UpdateSubscription through the gRPC handler with a random mask
 	Churn                                                              int // create/delete subscriptions and topics
 	NoSeek, NoDL, OrderedOnly                                          bool
 	BigAdvance                                                         bool
 }
 
-var ProfileAll = Profile{Name: "all", SetDelay: 1, Publish: 5, Pull: 6, Ack: 3, Nack: 2, Delay: 2, Advance: 4, Seek: 1, Snap: 1, Maint: 2, Sweep: 1, Churn: 1}
+var ProfileAll = Profile{Name: "all", SetDelay: 1, Update: 1, Publish: 5, Pull: 6, Ack: 3, Nack: 2, Delay: 2, Advance: 4, Seek: 1, Snap: 1, Maint: 2, Sweep: 1, Churn: 1}
 
 type subState struct {
 	name string
@@ -292,6 +293,48 @@ func (g *Gen) Next(now int64) Op {
 		}},
 		{p.Sweep, func() (Op, bool) {
 			return Op{K: "dl_sweep", Max: 1 + g.R.Intn(3)}, true
+		}},
+		{p.Update, func() (Op, bool) {
+			s := g.liveSub()
+			if s == nil {
+				return Op{}, false
+			}
+			p64 := func(v int64) *int64 { return &v }
+			req := &SubReq{Name: SubName(s.name), Topic: TopicName(s.cfg.Topic), Ordering: s.cfg.Ordered}
+			var mask []string
+			switch g.R.Intn(5) {
+			case 0:
+				mask = []string{"retry_policy"}
+				req.HasRetry = g.R.Intn(4) > 0
+				if g.R.Intn(3) > 0 {
+					req.RetryMin = p64([]int64{Sec, 100 * Ms, 5 * Sec}[g.R.Intn(3)])
+				}
+				if g.R.Intn(3) > 0 {
+					req.RetryMax = p64([]int64{12 * Sec, 60 * Sec, 2 * Sec}[g.R.Intn(3)])
+				}
+			case 1:
+				mask = []string{"dead_letter_policy"}
+				if g.R.Intn(4) > 0 {
+					dl := TopicName([]string{"d", "d2", "t1"}[g.R.Intn(3)])
+					req.DLTopic = &dl
+					req.DLMax = []int32{0, 1, 2, 3}[g.R.Intn(4)]
+				}
+			case 2:
+				mask = []string{"expiration_policy"}
+				req.Expiration = p64([]int64{3600 * Sec, 24 * 3600 * Sec, 600 * Sec}[g.R.Intn(3)])
+			case 3:
+				mask = []string{"message_retention_duration"}
+				req.Retention = p64([]int64{300 * Sec, 600 * Sec, 3600 * Sec, 120 * Sec}[g.R.Intn(4)])
+			default:
+				mask = []string{"retry_policy", "dead_letter_policy", "expiration_policy"}
+				req.Expiration = p64([]int64{3600 * Sec, 1800 * Sec}[g.R.Intn(2)])
+				req.HasRetry = true
+				req.RetryMin = p64(2 * Sec)
+				dl := TopicName("d")
+				req.DLTopic = &dl
+				req.DLMax = 2
+			}
+			return Op{K: "rpc", Rpc: &Rpc{Kind: "updateSub", Has: true, Paths: mask, Sub: req}}, true
 		}},
 		{p.SetDelay, func() (Op, bool) {
 			s := g.liveSub()
